@@ -5,17 +5,22 @@ p='/verif/DESIGN.md'
 s=open(p).read()
 s=s[:s.index("\n## Appendix D")]
 def rows(prefix_r2):
+    # prefix_r2: False = round 1, True = round 2, 3 = round 3
     out=[]
     for d in sorted(os.listdir('/verif/seeded')):
         mp=f'/verif/seeded/{d}/meta.json'
         if not os.path.exists(mp): continue
-        if d.startswith('R2-') != prefix_r2: continue
+        rnd = 3 if d.startswith('R3-') else (True if d.startswith('R2-') else False)
+        if rnd != prefix_r2: continue
         m=json.load(open(mp)); det=m.get('detection',{})
         fd=det.get('first_detail','')
         note=m.get('detection_notes','')
         by=det.get('check','')
         if 'caught by C14' in fd or 'caught by C14' in note: by='C14'
         if 'caught by C10' in fd or 'caught by C10' in note: by='C10'
+        for cc,cd in m.get('cross_detection',{}).items():
+            if cd.get('exit')==1 and det.get('exit')!=1:
+                by=cc; det=cd
         status = f"{by} quick, exit {det.get('exit','')}" if det.get('exit')==1 else ("quick: not caught (below resolution); thorough sample size: caught" if det.get('exit')==0 else "see notes")
         if 'after ' in fd or 'after ' in note: status += " (after strengthening)"
         out.append(f"| {m['id']} | {m['what'][:105].replace('|','/')} | {m['needs_to_manifest'][:110].replace('|','/')} | {status} | {det.get('wall_s_incl_build','')} s |")
@@ -137,6 +142,50 @@ evaluated were caught at once; after strengthening 36 of 37 are caught at the qu
 | id | change | needs | caught by | time incl. rebuild |
 |---|---|---|---|---|
 {rows(True)}
+
+**Round 3: 33 changes**, written by agents that were additionally told which
+source files no earlier change had touched (fisher_f, triangular, unit_disc,
+normal_inverse_gaussian, chi_squared, zeta, …). 28 of 33 were caught at the
+quick tier at once by the property they were written for; the 5 misses and
+what they led to:
+
+* R3-C03-2 (tree `update` walks to the wrong ancestor) needs an update
+  history; C03 samples fresh trees only. It is a C09/C10 matter and both catch
+  it (cross-detection recorded in its meta.json).
+* R3-C05-1 (Zipf n = 1 with s = +inf loops forever): the E+ cells of C05 had
+  no s = inf. The cross product n ∈ {{1, 2, 3, 10, 1e6, MAX/4, inf}} × s ∈
+  {{0, MIN, 1e-10, ½, 1, 1+1e-6, 2, 100, 1e10, MAX/4, inf}} was added — and
+  immediately exposed a **genuine defect** on the unchanged tree
+  (Zipf(inf, s→1⁺) practically never returns; fix 265e589).
+* R3-C13-3 (Triangular compares with an *absolute* epsilon): only visible
+  for ranges ≪ 1; C13 had no small-scale cells. A scale lattice 1e-6 … 1e6 at
+  location 0 was added for all six single-draw families.
+* R3-C14-3 (per-thread chains of squares shared by Geometric objects) made
+  the *check* spin (exit 2 after the time-out, not a detection): the endurance
+  step sampled with an unlimited word budget and the polluted cache makes the
+  rejection loop practically endless. C14 now gives every call the 1e5-word
+  budget; a call that exhausts it in the schedule / on a used worker thread but
+  returns on a fresh object in a fresh thread from the same RNG state is
+  reported as `history_dependent_words`. Same-type *triples* (a two-slot cache
+  survives any pair) were added to the deterministic schedules.
+* R3-C15-1 (Triangular caches a field that is NaN for min = max = mode): the
+  check skipped values whose JSON contains `null` as a format limitation. It
+  now reports a value that does not compare equal to *itself* (no round trip
+  can then compare equal), and no longer forgives f32 mismatches on the text
+  route (serde_json's `float_roundtrip` is exact for f32).
+
+Two strengthenings were made *before* the evaluation, from reading the agents'
+reports: the atom test T5 (§0) for R3-C12-3 (an atom of 4.5e-6 at [1, 0]),
+and the Zeta `+inf` rule of C03 (only where the documented overflow is
+possible) for R3-C03-1. While writing R3-C05-3 the sub-agent noticed that the
+unchanged tree hangs / panics for Hypergeometric with N ≳ 2^50 — a genuine
+defect the checks had missed because their extreme cells contained a single
+tuple above 2^50 (now 230 cells 2^40 … 2^62; findings
+C05/C03-Hypergeometric-h2pe-huge-N, fix 95ed336 for the panic).
+
+| id | change | needs | caught by | time incl. rebuild |
+|---|---|---|---|---|
+{rows(3)}
 
 Cross-detection seen on the way (not systematically measured): C11-2 ≡ C14-2
 (same Dirichlet early exit) is caught by both C11 (marginal law of the stale
